@@ -1,0 +1,8 @@
+//go:build verif
+
+package dbkit
+
+// VerifFree reports the number of free tokens.
+func (s *Semaphore) VerifFree() int {
+	return len(s.tokens)
+}
